@@ -1268,7 +1268,7 @@ class Exec:
 
     def init_default(self, o, attr, st):
         """a scenario object is given by the fields its contract talks about; a field it does not mention but that the class's own
-        argument-less __init__ chain sets has the value __init__ gives it (every real object went through __init__). Returns that
+        __init__ chain, called without arguments, sets has the value __init__ gives it (every real object went through __init__). Returns that
         value (immutable defaults only: None, numbers, booleans, strings, bytes, empty list/dict/bytearray) or None."""
         if not isinstance(o, VObj) or o.cls not in self.repo.classes or getattr(self, '_in_init_default', False):
             return None
@@ -1276,7 +1276,7 @@ class Exec:
         if o.cls not in cache:
             cache[o.cls] = {}
             lk = self.repo.lookup(o.cls, '__init__')
-            if lk and lk[0] == 'method' and len(lk[2].args.args) == 1 and not lk[2].args.vararg and not lk[2].args.kwonlyargs:
+            if lk and lk[0] == 'method' and len(lk[2].args.args) - 1 <= len(lk[2].args.defaults) and not lk[2].args.kwonlyargs:     # callable without arguments
                 self._in_init_default = True
                 saved_obls, saved_hooks = list(self.obls), self.hooks
                 try:
@@ -1333,8 +1333,12 @@ class Exec:
                 return [(st, VFunc(lk[2], None, cls=lk[1], self_val=o, mod=self.repo.classes[lk[1]].module))]
             if lk and lk[0] == 'static':
                 return [(st, VFunc(lk[2], None, cls=lk[1], mod=self.repo.classes[lk[1]].module))]
+            if lk and lk[0] == 'classmethod':
+                return [(st, VFunc(lk[2], None, cls=lk[1], self_val=VClass(o.cls), mod=self.repo.classes[lk[1]].module))]
             if lk and lk[0] == 'const':
                 return self.ev(lk[2], st.new_env(None), st, {'mod': self.repo.classes[lk[1]].module})
+            if lk:
+                raise ToolLimit('attribute %s.%s of kind %s' % (o.cls, attr, lk[0]))       # the class has it: not an AttributeError
             d = self.init_default(o, attr, st)
             if d is not None:
                 st.heap[key] = d
